@@ -535,7 +535,13 @@ def check_ir_witnesses(ctx, F):
         if got != want:
             ctx.violate("ir.witness", f"{fn['path']}|{name}", f"{fn['path'].split('ir_printer::')[-1]} on {name}: the IR value is {got}, the model value is {want}: the IR misreports what the wowm text says", fn["file"], fn["line"])
 
-    try:
+    def section(body):
+        try:
+            body()
+        except (Unsupported, Panic, KeyError, TypeError) as e:
+            ctx.violate("ir.witness", f"shape|{body.__name__}", f"IR conversion functions ({body.__name__}): not interpretable — review ({type(e).__name__}: {e})")
+
+    def versions():
         # --- world versions -------------------------------------------------------------------------------------------------
         fn = F.fn(IR + "IrWorldVersion::from_world_version")
         if fn is None:
@@ -553,6 +559,7 @@ def check_ir_witnesses(ctx, F):
             check("login versions {2, 8}", r[2][0] if isinstance(r, tuple) and r[0] == "variant" and len(r) > 2 else r, [2, 8], fn)
             r = run_(fn["path"], [[("variant", LV + "All")]])
             check("login versions {*}", r[1].split("::")[-1] if isinstance(r, tuple) and r[0] == "variant" else r, "All", fn)
+    def sizes():
         # --- sizes -----------------------------------------------------------------------------------------------------------
         fn = F.fn(IR + "container::IrSizes::from_sizes")
         if fn is None:
@@ -562,11 +569,13 @@ def check_ir_witnesses(ctx, F):
                 f = fields(run_(fn["path"], [("struct", "crate::parser::types::sizes::Sizes", {"minimum": lo, "maximum": hi})]))
                 got = (f["constant_sized"], f["minimum_size"], f["maximum_size"]) if f else None
                 check(f"sizes [{lo}, {hi}]", got, (lo == hi, min(lo, 0xFFFFFFFF), min(hi, 0xFFFFFFFF)), fn)
+    def file_info():
         # --- file info ---------------------------------------------------------------------------------------------------------
         fn = F.fn(IR + "IrFileInfo::from_file_info")
         if fn is not None:
             f = fields(run_(fn["path"], [("struct", "crate::file_info::FileInfo", {"file_name": "a.wowm", "path": None, "start_position": 11, "end_position": 29})]))
             check("file a.wowm lines 11..29", (f["file_name"], f["start_position"], f["end_position"]) if f else None, ("a.wowm", 11, 29), fn)
+    def container_type():
         # --- container type ----------------------------------------------------------------------------------------------------
         fn = F.fn(IR + "container::IrContainerType::from_container_type")
         CT = "wow_message_parser::parser::types::container::ContainerType::"
@@ -576,6 +585,7 @@ def check_ir_witnesses(ctx, F):
                 check(f"{var}({op:#x})", (r[1].split("::")[-1], r[2]) if isinstance(r, tuple) and r[0] == "variant" and len(r) > 2 else r, (var, [op]), fn)
             r = run_(fn["path"], [("variant", CT + "Struct")])
             check("Struct", r[1].split("::")[-1] if isinstance(r, tuple) and r[0] == "variant" else r, "Struct", fn)
+    def enumerator():
         # --- enumerator -----------------------------------------------------------------------------------------------------------
         fn = F.fn(IR + "definer::IrDefinerField::from_definer_field")
         D = "crate::parser::types::definer::"
@@ -586,8 +596,8 @@ def check_ir_witnesses(ctx, F):
                                                     "ToString::to_string": lambda a: str(a[0]) if isinstance(a[0], int) else a[0]}))
                 v = fields(f["value"]) if f else None
                 check(f"enumerator {nm} = {orig}", (f["name"], v["value"], v["original_string"]) if f and v else None, (nm, str(val), orig), fn)
-    except (Unsupported, Panic, KeyError, TypeError) as e:
-        ctx.violate("ir.witness", "shape", f"IR conversion functions: not interpretable — review ({type(e).__name__}: {e})")
+    for sec in (versions, sizes, file_info, container_type, enumerator):
+        section(sec)
     ctx.rule("ir.witness", n, floor=20, note="IR conversion functions interpreted on distinguishing instances (version components incl. literal zeros, min/max sizes, line numbers, container kinds with opcodes, enumerator value and spelling)")
 
 
